@@ -30,11 +30,13 @@ import (
 	"fmt"
 	"math"
 	"os"
+	"os/exec"
 	"path/filepath"
 	"regexp"
 	"runtime"
 	"runtime/debug"
 	"sort"
+	"strconv"
 	"strings"
 	"syscall"
 	"time"
@@ -269,6 +271,12 @@ func resultsDir() string { return filepath.Join(common.Root(), ".work", "run", "
 // Prepare is called by cmd/c20 before the framework starts: the parent process empties the
 // directory in which the workers leave their rows of the growth table.
 func Prepare(args []string) {
+	if len(args) == 4 && args[0] == "--allocsite" {
+		runtime.MemProfileRate = 1
+		n, _ := strconv.Atoi(args[3])
+		fmt.Println(allocSiteChild(args[1], args[2], n))
+		os.Exit(0)
+	}
 	for _, a := range args {
 		if a == "--worker" || a == "--replay-key" || a == "--replay" {
 			return
@@ -389,6 +397,7 @@ func runCase(c *common.Ctx, e *common.Enum, f *family, en *entry) {
 		safeCall(call)
 	}
 
+	caseAllocFn = ""
 	r := row{Family: f.name, Entry: en.name, Verdict: "near-linear"}
 	var calibs []time.Duration
 	noisy := false
@@ -480,33 +489,25 @@ stages:
 			if os.Getenv("C20_DEBUG") != "" {
 				fmt.Fprintf(os.Stderr, "%s n=%d bytes=%d res=%s lib=%d std=%d alloc=%d cpu=%v wall=%v\n", c.Key, n, len(sql), p.Result, p.Lib, p.Std, p.Alloc, p.cpu, p.wall)
 			}
-			if fs := judge(en, st.ru, cur, call); len(fs) > 0 {
-				r.Verdict, r.Where = "super-linear", fs[0].where
-				if !st.main {
-					r.Verdict = "explosive growth at small sizes"
-					pts = cur
+			if fs := judge(en, st.ru, cur, &probe{call, f.name, n}); len(fs) > 0 {
+				if !violated {
+					r.Verdict, r.Where = "super-linear", fs[0].where
+					if !st.main {
+						r.Verdict = "explosive growth at small sizes"
+						pts = cur
+					}
 				}
 				for _, x := range fs {
 					c.Fail(x.sig, fmt.Sprintf("family %s, entry point %s: %s", f.name, en.name, x.msg))
 				}
 				violated = true
-				// The ladder goes on while a call stays cheap, so that a second, independent culprit
-				// (one that needs larger sizes to pass the floor) is reported by the same run instead
-				// of appearing only after the first one has been repaired.
-				if !st.main || p.total() > budget {
+				if !st.main {
 					break stages
 				}
-				continue
-			}
-			if violated {
-				if p.total() > budget {
-					break stages
-				}
-				continue
 			}
 			// CPU back-stop (only where the deterministic measures did not object): min of 3 runs
 			// where a call is long enough to be timed
-			if st.main && p.cpu >= cpuFloor*3/4 {
+			if st.main && !violated && p.cpu >= cpuFloor*3/4 {
 				c0 := calibTime()
 				m := p.cpu
 				for k := 0; k < 2; k++ {
@@ -520,7 +521,7 @@ stages:
 				cur[len(cur)-1].CPUms = float64(m.Microseconds()) / 1000
 				pts[len(pts)-1].cpuMin, pts[len(pts)-1].CPUms = m, cur[len(cur)-1].CPUms
 			}
-			if st.main {
+			if st.main && !violated {
 				if cpuSig, msg := judgeCPU(en, cur, calibs, &noisy, call); cpuSig != "" {
 					r.Verdict, r.Where = "super-linear (cpu time)", strings.TrimPrefix(cpuSig, "superlinear:"+en.name+":")
 					c.Fail(cpuSig, fmt.Sprintf("family %s, entry point %s: %s", f.name, en.name, msg))
@@ -529,6 +530,12 @@ stages:
 				}
 			}
 			if cut != "" {
+				break stages
+			}
+			// After a violation the ladder goes on while a call stays cheap, so that a second,
+			// independent culprit (one that needs larger sizes to pass the floor) is reported by the
+			// same run instead of appearing only after the first one has been repaired.
+			if violated && (p.total() > budget || p.Alloc > 2*budget) {
 				break stages
 			}
 			if p.wall > 20*time.Second {
@@ -600,10 +607,20 @@ stages:
 
 // judge applies a growth rule to the totals, to every basic block and to the allocated bytes of
 // the measured points (the newest window); it returns a signature naming the function responsible.
-// call == nil: only say whether the rule is violated (no re-runs for localisation).
+// pr == nil: only say whether the rule is violated (no re-runs for localisation).
 type finding struct{ sig, where, msg string }
 
-func judge(en *entry, ru rule, pts []point, call func() string) (out []finding) {
+// probe says how to repeat the newest measured call when a culprit has to be named.
+type probe struct {
+	call   func() string
+	family string
+	n      int
+}
+
+// caseAllocFn caches the allocation site found for the current case (the profiled re-run is expensive).
+var caseAllocFn string
+
+func judge(en *entry, ru rule, pts []point, pr *probe) (out []finding) {
 	var ps []point
 	for _, p := range pts {
 		if p.Result != "not-parsed" {
@@ -650,7 +667,7 @@ func judge(en *entry, ru rule, pts []point, call func() string) (out []finding) 
 	if !totBad && !allBad && len(bad) == 0 {
 		return
 	}
-	if call == nil {
+	if pr == nil {
 		return []finding{{"superlinear", "", ""}}
 	}
 	// prefer blocks of the library over blocks of the standard library, then the hottest
@@ -677,7 +694,15 @@ func judge(en *entry, ru rule, pts []point, call func() string) (out []finding) 
 	}
 	allocFn := ""
 	if allBad {
-		allocFn = allocSite(call)
+		if caseAllocFn == "" {
+			caseAllocFn = allocSite(pr.family, en.name, ns[1]) // the second size of the window: cheap, and the growing part already dominates
+			if caseAllocFn == "" {
+				caseAllocFn = "-"
+			}
+		}
+		if caseAllocFn != "-" {
+			allocFn = caseAllocFn
+		}
 	}
 	if len(bad) > 0 {
 		u := bad[0].u
@@ -685,7 +710,7 @@ func judge(en *entry, ru rule, pts []point, call func() string) (out []finding) 
 		msg := describe("execution count of basic block "+unitPos(u)+" in "+fn, blk(u))
 		if !meta.funcs[meta.units[u].fn].lib {
 			// the steep block is in the standard library: name the library function that calls into it
-			if caller := sampleCaller(call); caller != "" {
+			if caller := sampleCaller(pr.call); caller != "" {
 				msg += "; reached from " + caller
 				fn = caller
 			}
@@ -815,12 +840,58 @@ func pcLibFrame(pc uintptr) string {
 	return name
 }
 
-// allocSite re-runs the call with every allocation profiled and names the library function whose
-// allocations account for most bytes (for a quadratic allocation pattern that is the culprit).
-func allocSite(call func() string) string {
-	oldRate := runtime.MemProfileRate
-	runtime.MemProfileRate = 1
-	defer func() { runtime.MemProfileRate = oldRate }()
+// allocSite names the library function whose allocations account for most of the bytes allocated
+// by one call (for a quadratic allocation pattern that is the culprit).  The call is repeated in a
+// child process with every allocation profiled (MemProfileRate = 1 from the start of the process):
+// a memory profile with very many distinct stacks slows down every later garbage collection, which
+// must not happen inside a measuring worker.
+func allocSite(famName, entryName string, n int) string {
+	self, err := os.Executable()
+	if err != nil {
+		return ""
+	}
+	cmd := exec.Command(self, "--allocsite", famName, entryName, strconv.Itoa(n))
+	cmd.Env = append(os.Environ(), "GOMAXPROCS=2")
+	out, err := cmd.Output()
+	if err != nil {
+		return ""
+	}
+	return strings.TrimSpace(string(out))
+}
+
+// allocSiteChild is the body of the child process started by allocSite.
+func allocSiteChild(famName, entryName string, n int) string {
+	var f *family
+	fams := families()
+	for i := range fams {
+		if fams[i].name == famName {
+			f = &fams[i]
+		}
+	}
+	var en *entry
+	ents := entries()
+	for i := range ents {
+		if ents[i].name == entryName {
+			en = &ents[i]
+		}
+	}
+	if f == nil || en == nil {
+		return ""
+	}
+	sql := f.gen(n)
+	var call func() string
+	if en.needAST {
+		t, err := gosqlx.Parse(sql)
+		if err != nil || t == nil {
+			return ""
+		}
+		call = func() string { return en.tree(t) }
+	} else {
+		var ok bool
+		if call, ok = en.prepare(sql); !ok {
+			return ""
+		}
+	}
 	read := func() map[string]int64 {
 		runtime.GC()
 		runtime.GC()
@@ -845,12 +916,12 @@ func allocSite(call func() string) string {
 		}
 		return out
 	}
+	safeCall(call) // warm-up: one-time initialisation is not the site we look for
 	before := read()
 	old := debug.SetGCPercent(-1)
 	safeCall(call)
 	debug.SetGCPercent(old)
 	after := read()
-	sink = nil
 	best, bestBytes := "", int64(0)
 	for k, v := range after {
 		d := v - before[k]
